@@ -37,6 +37,9 @@ pub enum Op {
     Move(Mv),
     SetBoard(String),
     Evaluate(u64),
+    /// set_board with a board assembled through `Board::builder()` (rights-free placements only),
+    /// so that clock values beyond what a FEN can carry reach the plugin
+    SetBoardClocks(String, u16, u16),
     /// submit the move the last `evaluate` proposed (whatever it was) with make_move
     SubmitSuggestion,
 }
@@ -46,6 +49,7 @@ fn op_json(o: &Op) -> Value {
         Op::Move(m) => json!({"move": m.uci()}),
         Op::SetBoard(f) => json!({"set_board": f}),
         Op::Evaluate(k) => json!({"evaluate": k}),
+        Op::SetBoardClocks(f, h, n) => json!({"set_board_clocks": f, "half": h, "full": n}),
         Op::SubmitSuggestion => json!({"submit_suggestion": true}),
     }
 }
@@ -55,6 +59,8 @@ fn op_from(v: &Value) -> Op {
         Op::Move(Mv::parse(m).unwrap())
     } else if v["submit_suggestion"].as_bool() == Some(true) {
         Op::SubmitSuggestion
+    } else if let Some(f) = v["set_board_clocks"].as_str() {
+        Op::SetBoardClocks(f.to_string(), v["half"].as_u64().unwrap() as u16, v["full"].as_u64().unwrap() as u16)
     } else if let Some(f) = v["set_board"].as_str() {
         Op::SetBoard(f.to_string())
     } else {
@@ -115,6 +121,24 @@ pub fn run_history(ops: &[Op]) -> (u64, u64, Vec<Divergence>) {
                         d.push(Divergence::new("plugin-board-wrong-after-set_board", hist(i)));
                     }
                 }
+                Op::SetBoardClocks(fen, half, full) => {
+                    let mut p = Position::from_fen(fen).unwrap();
+                    p.half = *half as u32;
+                    p.full = *full as u32;
+                    let mut bld = chess_movegen::Board::builder();
+                    bld.turn(real_color(p.turn)).half_move_clock(*half).full_move_clock(*full);
+                    for s in 0..64u8 {
+                        if let Some((c, pc)) = p.at(s) {
+                            let _ = bld.place(pos(s), real_color(c), real_piece(pc));
+                        }
+                    }
+                    let Ok(b) = bld.build() else { continue };
+                    eng.set_board(b);
+                    rs = RefState::new(p);
+                    if diff_position(&read_back(&eng.board()), &rs.pos).is_some() {
+                        d.push(Divergence::new("plugin-board-wrong-after-set_board", hist(i)));
+                    }
+                }
                 Op::Move(m) => {
                     let legal = rs.pos.legal_moves().contains(m);
                     let before = eng.board();
@@ -137,6 +161,9 @@ pub fn run_history(ops: &[Op]) -> (u64, u64, Vec<Divergence>) {
                         continue;
                     }
                     rs.pos = rs.pos.make(*m);
+                    // the 16-bit counters stay at their limit
+                    rs.pos.half = rs.pos.half.min(65535);
+                    rs.pos.full = rs.pos.full.min(65535);
                     let c = rs.seen.entry(rs.pos.identity()).or_insert(0);
                     *c += 1;
                     let want_flag = *c == 3;
@@ -300,6 +327,26 @@ pub fn c15_histories(tier: Tier) -> Vec<Vec<Op>> {
                     out.push(vec![Op::SetBoard(fen.clone()), Op::Move(m1), Op::Move(m2)]);
                 }
             }
+        }
+    }
+    // one very long reversible manoeuvre: 262 knight-dance cycles (1 048 plies), every position
+    // occurring more than 256 times - the flag is raised on the third occurrence and never again
+    {
+        let cyc = ["g1f3", "g8f6", "f3g1", "f6g8"];
+        let h: Vec<Op> = (0..262 * 4).map(|i| Op::Move(Mv::parse(cyc[i % 4]).unwrap())).collect();
+        out.push(h);
+    }
+    // clock values that only the builder can install (a FEN carries four digits): the counting of
+    // occurrences must not depend on them
+    for (half, full) in [(65535u16, 65535u16), (65534, 65535), (65533, 0), (65531, 65531), (9999, 9999), (100, 1), (99, 1), (0, 65535)] {
+        for fen in ["1n2k3/8/8/8/8/8/8/1N2K3 w - - 0 1", "1n2k3/8/8/8/8/8/8/1N2K3 b - - 0 1"] {
+            let white = fen.contains(" w ");
+            let cyc: [&str; 4] = if white { ["b1c3", "b8c6", "c3b1", "c6b8"] } else { ["b8c6", "b1c3", "c6b8", "c3b1"] };
+            let mut h = vec![Op::SetBoardClocks(fen.to_string(), half, full)];
+            for i in 0..16 {
+                h.push(Op::Move(Mv::parse(cyc[i % 4]).unwrap()));
+            }
+            out.push(h);
         }
     }
     // submissions that differ from a legal move in the promotion field only, and the root's own
@@ -498,7 +545,7 @@ pub fn run_c15(args: &crate::Args) -> i32 {
             "traces_validated_against_impl": hs.len(),
             "evaluations": hs.len(),
             "distinct_nontrivial": with_flag,
-            "rule": "every maximal history over three move alphabets from a fresh plugin engine (knight shuffles to depth 16/20 so positions must recur; knights + rook h1-g1-h1 / h8-g8-h8 to depth 12/14 so placements recur with different castling rights; a rich alphabet with double steps, capture and castling to depth 6/7), every alphabet move that is illegal at a leaf submitted there, set_board of three boards before and after shuffling followed by shuffles to depth 12/14, and every knight-shuffle history of depth 12/14 with one or two illegal submissions inserted at every position; set_board of every catalogue root followed by every legal move sequence of length <= 2 (promotions, en passant, castling through the stable move encoding); set_board of every catalogue root followed by up to 8 (thorough 40) four-ply cycles back to it, each played three times; roots with an en-passant marker followed by four cycles through their marker-less twin; after set_board of every catalogue root, submissions that differ from a legal move only in the promotion field (promotion squares without a piece, a plain move with each of the four pieces) and the root's own pseudo-legal-but-illegal moves, then a legal move; the plugin's own suggestion submitted back at once, after other moves, and after a set_board to another position; a strided subset re-run with evaluate calls interleaved. Each step is checked against the reference board and an occurrence counter that counts the installed position. states/transitions = plugin calls checked; non-trivial = histories in which a third occurrence is reached.",
+            "rule": "every maximal history over three move alphabets from a fresh plugin engine (knight shuffles to depth 16/20 so positions must recur; knights + rook h1-g1-h1 / h8-g8-h8 to depth 12/14 so placements recur with different castling rights; a rich alphabet with double steps, capture and castling to depth 6/7), every alphabet move that is illegal at a leaf submitted there, set_board of three boards before and after shuffling followed by shuffles to depth 12/14, and every knight-shuffle history of depth 12/14 with one or two illegal submissions inserted at every position; set_board of every catalogue root followed by every legal move sequence of length <= 2 (promotions, en passant, castling through the stable move encoding); set_board of every catalogue root followed by up to 8 (thorough 40) four-ply cycles back to it, each played three times; roots with an en-passant marker followed by four cycles through their marker-less twin; after set_board of every catalogue root, submissions that differ from a legal move only in the promotion field (promotion squares without a piece, a plain move with each of the four pieces) and the root's own pseudo-legal-but-illegal moves, then a legal move; one 1048-ply knight dance (every position occurring more than 256 times); boards installed through the builder with clock values up to 65535 followed by four cycles; the plugin's own suggestion submitted back at once, after other moves, and after a set_board to another position; a strided subset re-run with evaluate calls interleaved. Each step is checked against the reference board and an occurrence counter that counts the installed position. states/transitions = plugin calls checked; non-trivial = histories in which a third occurrence is reached.",
             "histories": hs.len(),
             "third_occurrences_reached": flags,
             "exhaustive": true,
